@@ -98,6 +98,14 @@ int main(int argc, char** argv) {
           Matrix JS; m.calcStationJacobian(s, tb, ts, JS); Vector JSm = JS * W; e = 0; for (int i = 0; i < nt; ++i) for (int c = 0; c < 3; ++c) e += std::abs(JSm[3 * i + c] - JSW[i][c]);
           chk("C04", "explicit-station-J*w=operator", e, JSm.norm(), seed, k, rs);
         }
+        // the u-space operators give the same answers for strided (non-contiguous) argument and result views as for plain vectors
+        if (nu) { Matrix Ain(3, nu), Aout(3, nu); Ain = 0; Aout = 0; for (int i = 0; i < nu; ++i) Ain(1, i) = W[i];
+          VectorView vin = ~Ain[1]; VectorView vout = ~Aout[2]; Vector ref, got; Real ev = 0, sv = 0;
+          m.multiplyByM(s, W, ref);    m.multiplyByM(s, vin, got);    ev += (got - ref).norm(); m.multiplyByM(s, W, vout);    ev += (Vector(vout) - ref).norm(); m.multiplyByM(s, vin, vout); ev += (Vector(vout) - ref).norm(); sv += ref.norm();
+          m.multiplyByMInv(s, W, ref); m.multiplyByMInv(s, vin, got); ev += (got - ref).norm(); m.multiplyByMInv(s, W, vout); ev += (Vector(vout) - ref).norm(); m.multiplyByMInv(s, vin, vout); ev += (Vector(vout) - ref).norm(); sv += ref.norm();
+          Vector_<SpatialVec> jr, jg; m.multiplyBySystemJacobian(s, W, jr); m.multiplyBySystemJacobian(s, vin, jg); for (int b = 0; b < NB; ++b) { ev += (jr[b] - jg[b]).norm(); sv += jr[b].norm(); }
+          Vector jt; m.multiplyBySystemJacobianTranspose(s, FB, jt); m.multiplyBySystemJacobianTranspose(s, FB, vout); ev += (Vector(vout) - jt).norm(); sv += jt.norm();
+          chk("C01", "strided-views=plain-vectors", ev, sv, seed, k, rs); }
         // C01
         Matrix M, MI; m.calcM(s, M); m.calcMInv(s, MI);
         chk("C01", "M-symmetric", nu ? (M - ~M).norm() : 0, nu ? M.norm() : 0, seed, k, rs);
